@@ -175,11 +175,6 @@ func classify(v1 string, kind string, v2 string) string {
 				return "C03.variant-scalar-dims-bit"
 			}
 		}
-		for _, m := range variants(toks) {
-			if m[0]&0x80 != 0 && m[0]&0x3f == 15 && m[1] >= 1 && m[1] <= 65535 {
-				return "C03.variant-bytestring-array"
-			}
-		}
 	}
 	return ""
 }
